@@ -1945,7 +1945,13 @@ class t2data(object):
         if 'connection' in self.short_output:
             self.history_connection = self.short_output['connection'][:]
         if 'generator' in self.short_output:
-            self.history_generator = self.short_output['generator'][:]
+            # history generators are given by the blocks the generators are in:
+            self.history_generator = []
+            for gen in self.short_output['generator']:
+                if gen.block in self.grid.block: blk = self.grid.block[gen.block]
+                else: blk = gen.block
+                if not any([blk is b for b in self.history_generator]):
+                    self.history_generator.append(blk)
         self.short_output = {}
 
     def convert_history_to_short(self):
@@ -1961,7 +1967,9 @@ class t2data(object):
             cons = [con for con in self.history_connection if isinstance(con, t2connection)]
             if cons: self.short_output['connection'] = cons
         if self.history_generator:
-            gens = [gen for gen in self.history_generator if isinstance(gen, t2generator)]
+            # history generators are given by the blocks the generators are in:
+            gens = [gen for blk in self.history_generator if isinstance(blk, t2block)
+                    for gen in self.generatorlist if gen.block == blk.name]
             if gens: self.short_output['generator'] = gens
         self.history_block = []
         self.history_connection = []
